@@ -66,8 +66,21 @@ func StartModel() *Model {
 	return &Model{cmd: cmd, in: in, out: bufio.NewReaderSize(out, 1<<20)}
 }
 
-// Query sends one JSON line and reads one JSON reply.
 func (m *Model) Query(q map[string]any) map[string]any {
+	r, _ := m.QueryAny(q).(map[string]any)
+	if r == nil {
+		r = map[string]any{}
+	}
+	return r
+}
+
+func (m *Model) QueryArr(q map[string]any) []any {
+	r, _ := m.QueryAny(q).([]any)
+	return r
+}
+
+// QueryAny sends one JSON line and reads one JSON reply.
+func (m *Model) QueryAny(q map[string]any) any {
 	b, err := json.Marshal(q)
 	if err != nil {
 		panic(err)
@@ -82,7 +95,7 @@ func (m *Model) Query(q map[string]any) map[string]any {
 		fmt.Fprintln(os.Stderr, "model driver died on query:", string(b), err)
 		os.Exit(2)
 	}
-	var r map[string]any
+	var r any
 	if err := json.Unmarshal(line, &r); err != nil {
 		fmt.Fprintln(os.Stderr, "model driver bad reply:", string(line))
 		os.Exit(2)
